@@ -21,6 +21,7 @@ type c11Model struct {
 	sharesPre map[delKey]sdkmath.LegacyDec
 	valPre    map[string][2]string // tokens, shares
 	balPre    map[string]sdkmath.Int
+	redPre    map[delKey]sdkmath.LegacyDec // shares that unmatured incoming redelegations still reference
 }
 
 func newC11() *c11Model { return &c11Model{} }
@@ -49,10 +50,31 @@ func (m *c11Model) before(r *Run, s *Step) {
 	for _, v := range vals {
 		m.valPre[v.OperatorAddress] = [2]string{v.Tokens.String(), v.DelegatorShares.String()}
 	}
+	m.redPre = w.incomingRedelegationShares(ctx)
 	m.balPre = map[string]sdkmath.Int{}
 	for _, k := range trackedAccounts(r) {
 		m.balPre[k.Bech()] = w.App.BankKeeper.GetBalance(ctx, k.Acc(), "FX").Amount
 	}
+}
+
+// incomingRedelegationShares: per (delegator, destination validator) the destination shares that
+// redelegation entries which have not matured yet still reference (they are slashed there if the
+// source validator is slashed for an earlier infraction).
+func (w *World) incomingRedelegationShares(ctx sdk.Context) map[delKey]sdkmath.LegacyDec {
+	out := map[delKey]sdkmath.LegacyDec{}
+	_ = w.App.StakingKeeper.IterateRedelegations(ctx, func(_ int64, red stakingtypes.Redelegation) bool {
+		for _, e := range red.Entries {
+			if e.CompletionTime.After(ctx.BlockTime()) {
+				k := delKey{red.DelegatorAddress, red.ValidatorDstAddress}
+				if _, ok := out[k]; !ok {
+					out[k] = sdkmath.LegacyZeroDec()
+				}
+				out[k] = out[k].Add(e.SharesDst)
+			}
+		}
+		return false
+	})
+	return out
 }
 
 // assertInvariants runs every registered crisis invariant on a branch.
@@ -139,6 +161,28 @@ func (m *c11Model) check(r *Run, s *Step, o *Outcome) []Violation {
 		} else {
 			if !dFrom.Equal(shares.Neg()) || !dTo.Equal(shares) {
 				vs = append(vs, viol("shares-conserved", "transfer/"+kind, "%s of %s shares: sender changed by %s, recipient by %s", meth, shares, dFrom, dTo))
+			}
+		}
+		// bookkeeping: the transfer must not take away shares that an unmatured incoming redelegation of
+		// the sender still references (those shares answer for a slash of the source validator)
+		deficit := func(shares map[delKey]sdkmath.LegacyDec, red map[delKey]sdkmath.LegacyDec) sdkmath.LegacyDec {
+			need, ok := red[delKey{from, val}]
+			if !ok {
+				return sdkmath.LegacyZeroDec()
+			}
+			d := need.Sub(get(shares, from))
+			if d.IsNegative() {
+				return sdkmath.LegacyZeroDec()
+			}
+			return d
+		}
+		if from != to {
+			pre, postD := deficit(m.sharesPre, m.redPre), deficit(post, w.incomingRedelegationShares(ctx))
+			if _, has := m.redPre[delKey{from, val}]; has {
+				r.Probe("share-transfer-ok-with-incoming-redelegation")
+			}
+			if postD.GT(pre) {
+				vs = append(vs, viol("bookkeeping-consistent", "transfer/redelegation-backing-removed", "%s of %s shares left the sender with %s shares less than its unmatured incoming redelegations at %s reference (before: %s)", meth, shares, postD, val, pre))
 			}
 		}
 		// validator untouched
@@ -251,7 +295,32 @@ func (e EvmEngine) genC11(r *Run) Step {
 		return sdkmath.ZeroInt()
 	}
 	res := e.resolver(r, nil)
-	switch r.Rng.IntN(12) {
+	switch r.Rng.IntN(13) {
+	case 12:
+		// scenario over several blocks: redelegate into a validator, approve a spender there, then the
+		// sender itself or the spender moves shares out while the redelegation has not matured
+		if r.Cfg.World.Validators < 2 {
+			return blk(pc("withdraw", val))
+		}
+		src := r.Rng.IntN(r.Cfg.World.Validators)
+		dst := (src + 1 + r.Rng.IntN(r.Cfg.World.Validators-1)) % r.Cfg.World.Validators
+		srcV, dstV := fmt.Sprintf("$valop%d", src), fmt.Sprintf("$valop%d", dst)
+		b := (u + 1 + r.Rng.IntN(st.NUsers-1)) % st.NUsers
+		amt := FX(int64(10 + r.Rng.IntN(500)))
+		pcs := func(signer, m string, args ...string) Tx {
+			return Tx{K: "pcall", S: signer, A: A("t", "staking", "m", m, "args", strings.Join(args, "|")), Gas: 2_000_000}
+		}
+		part := amt.QuoRaw(int64(1 + r.Rng.IntN(3)))
+		var follow []Step
+		follow = append(follow, blk(pcs(signer, "redelegateV2", srcV, dstV, amt.String())))
+		if r.Pct(50) {
+			follow = append(follow, blk(pcs(signer, "approveShares", dstV, fmt.Sprintf("$user%d", b), FX(1_000_000).String())))
+			follow = append(follow, blk(pcs(KeyName("user", b), "transferFromShares", dstV, fmt.Sprintf("$user%d", u), fmt.Sprintf("$user%d", r.Rng.IntN(st.NUsers)), part.String())))
+		} else {
+			follow = append(follow, blk(pcs(signer, "transferShares", dstV, fmt.Sprintf("$user%d", b), part.String())))
+		}
+		st.Setup = append(st.Setup, follow...)
+		return blk(pc("delegateV2", srcV, amt.MulRaw(2).String()))
 	case 0, 1, 2:
 		return blk(pc("delegateV2", val, FX(int64(1+r.Rng.IntN(1000))).String()))
 	case 3:
@@ -286,6 +355,9 @@ func (e EvmEngine) genC11(r *Run) Step {
 		}
 		if !amt.IsPositive() {
 			amt = sh
+		}
+		if r.Pct(12) {
+			amt = sh.Add(FX(int64(1 + r.Rng.IntN(50)))) // more than the sender holds: must be refused without effects
 		}
 		return blk(pc("transferShares", val, fmt.Sprintf("$user%d", to), amt.String()))
 	case 10:
